@@ -214,7 +214,42 @@ pub fn l4_root_cause<const D: usize>(m: &RefModel<D>, violations: &[(usize, usiz
     }
     // no local violation beyond the band: are all witness cells near-flat slivers?
     let all_slivers = violations.iter().take(400).all(|&(ci, _)| m.cell_points(&m.cells[ci]).map(|p| normalized_volume(&p) < 1e-6).unwrap_or(false));
-    if all_slivers { "sliver".into() } else { "global-only".into() }
+    if all_slivers {
+        return "sliver".into();
+    }
+    // A valid triangulation of a convex region that is locally Delaunay is Delaunay, so in exact
+    // arithmetic some pair of adjacent cells violates; here every such pair is inside the band (the
+    // library's predicates cannot see it). If each of them involves a near-flat cell (tiny orientation
+    // determinant scales the in-sphere determinant into the band although the neighbour's apex is
+    // well inside the sphere), the cause is again the slivers, not the fat witness cells: one in-band
+    // pair with a near-flat cell is enough to let a deep violation through.
+    let mut local_exact = 0usize;
+    let mut local_exact_with_sliver = 0usize;
+    for c in m.cells.iter() {
+        let Some(cp) = m.cell_points(c) else { continue };
+        if cp.len() != D + 1 {
+            continue;
+        }
+        for o in m.cells.iter() {
+            if o.key == c.key || o.v.iter().filter(|k| c.v.contains(k)).count() != D {
+                continue;
+            }
+            let Some(apex) = o.v.iter().find(|k| !c.v.contains(k)).and_then(|k| m.vertex(*k)) else { continue };
+            if crate::exact::insphere_sign(&cp, &apex.p) == Some(1) {
+                local_exact += 1;
+                let op = m.cell_points(o).unwrap_or_default();
+                if std::env::var_os("DVERIF_DEBUG").is_some() {
+                    let id = crate::exact::insphere_det(&cp, &apex.p);
+                    eprintln!("local exact violation: cell {:?} vol {:e} / neighbour {:?} vol {:e}: det_in {:e} orient {:e} tol {:e} err {:e}", c.key, normalized_volume(&cp), o.key, if op.len() == D + 1 { normalized_volume(&op) } else { -1.0 }, id.approx(), crate::exact::orient_det(&cp).approx(), crate::exact::tol_insphere(&cp, &apex.p), crate::exact::err_insphere(&cp, &apex.p));
+                }
+                if normalized_volume(&cp) < 1e-6 || (op.len() == D + 1 && normalized_volume(&op) < 1e-6) {
+                    local_exact_with_sliver += 1;
+                }
+            }
+        }
+    }
+    let _ = local_exact;
+    if local_exact_with_sliver > 0 { "sliver".into() } else { "global-only".into() }
 }
 
 pub fn certify<const D: usize>(m: &RefModel<D>, g: Guarantee, completion: bool, want_convex: bool, want_delaunay: bool) -> Cert {
